@@ -66,12 +66,12 @@ CLAIMED["C16"] = ("Proof (deductive, all 15-digit initial IMSIs, all indices bel
   "Trusted: govc, go/ssa, SMT solvers; assumed library contracts: strconv.Atoi, fmt.Sprintf(\"%0*d\") = the w-digit numeral of n; the link between the integer lemmas and the contract clauses is made by hand (stated in the evidence). IMSIs of 15 digits only (shape).",
   "DESIGN.md §4 C16")
 
-CLAIMED["C05"] = ("Proof (deductive, all K/OP/OPc/RAND/AUTN, all algorithm identifiers, 2- and 3-digit MNC, 15-digit SUPI): DeriveRESstarAndSetKey returns RES* = KDF(CK||IK, 6B||SN||len||RAND||0010||RES||0008)[16:32] "
+CLAIMED["C05"] = ("Proof (deductive, all K/OP/OPc/RAND/AUTN, all algorithm identifiers, 2- and 3-digit MNC; 15-digit SUPI for DeriveRESstarAndSetKey, SUPIs of 15, 14, 10 and 5 digits for DerivateKamf): DeriveRESstarAndSetKey returns RES* = KDF(CK||IK, 6B||SN||len||RAND||0010||RES||0008)[16:32] "
   "and installs K_AMF = KDF(K_SEAF, 6D||SUPI||len||0000||0002), K_NASenc/K_NASint = KDF(K_AMF, 69||01|02||0001||alg||0001)[16:32] with K_AUSF (6A) and K_SEAF (6C) in between, CK/IK/RES being f3/f4/f2 of TS 35.206 — "
   "the spec /verif/spec/kdfspec + milspec is written from TS 33.501 Annex A / TS 33.220 B.2 / TS 35.206 with HMAC-SHA-256 and AES as opaque functions; github.com/wmnsk/milenage is executed in line, i.e. verified together with the caller, not assumed; "
   "with only OP configured the result equals that for OPc = OP xor E_K(OP). DerivateKamf and DerivateAlgKey have their own contracts (modular).",
   "Trusted: govc, go/ssa, SMT solvers; assumed library contracts: hex.DecodeString, crypto/hmac+sha256 (= HMAC256), crypto/aes (= AES), regexp for the one SUPI pattern, fmt.Sprintf(%s), binary.*Endian. "
-  "The precondition snName = SNName(mcc, mnc) is discharged at the call site in RegisterUE only under C01 (not claimed yet). SUPIs of 15 digits only (shape).",
+  "The precondition snName = SNName(mcc, mnc) is discharged at the call site in RegisterUE only under C01. SUPI lengths other than those listed are not decided (the length of the string is part of the shape of a contract case).",
   "DESIGN.md §4 C05")
 
 CLAIMED["C14"] = ("Proof (deductive, arbitrary input octets) for the decoding primitives of the APER codec: GetBitString, GetBitsValue, bitCarry, getBitString, getBitsValue, parseAlignBits, parseConstraintValue, parseLength, "
@@ -115,7 +115,7 @@ CLAIMED["C19"] = ("Proof (deductive, every fault position) of the error discipli
 CLAIMED["C01"] = ("Proof (deductive, every reply the AMF may send, every configuration) of the emulator's side of the exchange at driver level, over ghost logs written by the contracts of the callees: "
   "ManageNGSetup builds exactly one NGAP message, the NG SETUP REQUEST with the configured gNB id length; RegisterUE builds, in this order, INITIAL UE MESSAGE (RAN-UE-NGAP-ID of the UE), UPLINK NAS TRANSPORT x2, INITIAL CONTEXT SETUP RESPONSE, UPLINK NAS TRANSPORT, "
   "each with the AMF-UE-NGAP-ID taken from the AMF's reply and the UE's RAN-UE-NGAP-ID; the NAS messages are Registration Request, Authentication Response, Registration Request (for the container), Security Mode Complete, Registration Complete; "
-  "exactly two messages are security protected: Security Mode Complete with header type 4, new context, COUNT 0, and Registration Complete with header type 2, COUNT 1; the stored uplink COUNT ends at 2 "
+  "exactly two messages are security protected: Security Mode Complete with header type 4, new context, COUNT 0, and Registration Complete with header type 2, COUNT 1; the stored uplink COUNT ends at 2; a procedure leaves through ManageError (exit) only after a fault — the association failed, a consumed reply was undecodable or a message builder returned an error — so for an AMF that answers, the exchange runs to its end "
   "(EncodeNasPduWithSecurity proved against NASEncode's contract, C06). The pieces the statement composes are decided under their own properties: octets of each NGAP message (C13, C03), SUCI/PLMN (C11), RES* and keys (C05, C15), envelope and MAC (C06, C07).",
   "NOT decided: acceptance by a reference AMF as a whole conversation (no peer is run; kernel SCTP and a socket hook are not used by this technique), the contents of the NAS messages built by nasTestpacket (constructors are assumed: they record what they were asked to build), "
   "the decoded contents the driver reads from replies (ngap.Decoder is assumed to return a message or an error). Functional preconditions of callees are assumed at driver level (proved where the callee is claimed). Run-time panics end the procedure.",
@@ -125,7 +125,7 @@ CLAIMED["C02"] = ("Proof (deductive, every reply, every UE state, every UE count
   "the number of establishments is at most the number of registered UEs, the numbers of service requests and releases at most the number of establishments, the number of deregistrations at most the number of registered UEs "
   "(so no procedure is attempted for a UE whose prerequisite loop did not reach it), for counts larger than the number of UEs and for negative counts; stgutg.Min proved. "
   "(2) Each procedure (EstablishPDU, ServiceRequest, ReleasePDU, DeregisterUE) at driver level over ghost logs written by the contracts of the callees: exactly the NGAP messages of the procedure in order, each with the UE's own AMF-UE-NGAP-ID and RAN-UE-NGAP-ID; "
-  "one PDU session identity in 1..15 in the NAS request, the release complete and the NGAP response; every protected NAS message uses header type 2 and the stored uplink COUNT, which ends one higher (EncodeNasPduWithSecurity proved against NASEncode's contract) — no COUNT is used twice before 2^24 messages. "
+  "one PDU session identity in 1..15 in the NAS request, the release complete and the NGAP response; every protected NAS message uses header type 2 and the stored uplink COUNT, which ends one higher; exit through ManageError only after a fault (EncodeNasPduWithSecurity proved against NASEncode's contract) — no COUNT is used twice before 2^24 messages. "
   "(3) Relational lemma: establishment, service request and release run one after the other on one UE use the same PDU session identity in all six places. "
   "The check also runs the contracts it composes: C06 (envelope, COUNT), C12 (UE address / TEID / UPF address extraction), C13 (NGAP builders and wire form).",
   "NOT decided: traffic mode of main() (blocks on a channel; XDP packages), acceptance by a reference AMF/SMF (no peer is run), NAS message contents (constructors assumed: they record what they were asked to build), that loop k of main passes element i (and not another element) is read off the index obligations only. "
@@ -145,7 +145,7 @@ CLAIMED["C09"] = ("Proof (deductive, all field values and contents) against a tr
   "for each of 44 message types the encoding of the mandatory part is exactly header (EPD, security header type or PDU session id + PTI, message type) followed by the mandatory fields in table order with the tabulated widths; for each of the 160 (message, optional IE) pairs the IE appears after the mandatory part with the tabulated IEI, a length field of the tabulated width carrying the number of value octets, and the tabulated size for fixed formats; "
   "structural obligations (go/types): every MsgType constant and every <Message><IE>Type constant has the tabulated value, every optional IE of a message struct is in the table of the message and vice versa, every IE value type can carry its tabulated format. Two genuine defects found and repaired in /repo (Requested QoS rules with a one-octet length, Last visited registered TAI with seven value octets).",
   "The tables are transcribed from the standard from memory (no copy of TS 24.501 is available offline); every row agreed with the library except the two repaired defects, which are corroborated inside the library itself (AuthorizedQosRules carries the same IE with two length octets; the accessors of LastVisitedRegisteredTAI use six octets). Optional IEs of the standard that the library does not implement are not listed. "
-  "The ten octets of the mandatory parts that hold two half-octet fields have their own lemmas (which accessor owns which bits), and the messages the emulator sends are proved octet by octet as built by nasTestpacket's constructors (AUTHENTICATION RESPONSE, REGISTRATION REQUEST in both forms, SECURITY MODE COMPLETE, REGISTRATION COMPLETE, SERVICE REQUEST, DEREGISTRATION REQUEST, UL NAS TRANSPORT with PDU SESSION ESTABLISHMENT REQUEST / RELEASE REQUEST / RELEASE COMPLETE) — a third defect found and repaired there (SERVICE REQUEST carried a 5GS mobile identity of type 'no identity'). Accessor sweep: 533 generated lemmas state, for every single-octet bit-field accessor pair of nasType, what the library's own layout annotation (Row, sBit, len) says — setter places exactly those bits and nothing else, getter reads them; that decides agreement of the code with its layout table, not of the table with the standard. NOT decided: bit fields spanning octets, the values chosen by the constructors for dummy fields (IMEISV digits, PTI), SECURITY PROTECTED 5GS NAS MESSAGE. Same assumed models of bytes.Buffer / encoding/binary as C08.",
+  "The ten octets of the mandatory parts that hold two half-octet fields have their own lemmas (which accessor owns which bits), and the messages the emulator sends are proved octet by octet as built by nasTestpacket's constructors (AUTHENTICATION RESPONSE, REGISTRATION REQUEST in both forms, SECURITY MODE COMPLETE, REGISTRATION COMPLETE, SERVICE REQUEST, DEREGISTRATION REQUEST, UL NAS TRANSPORT with PDU SESSION ESTABLISHMENT REQUEST / RELEASE REQUEST / RELEASE COMPLETE) — a third defect found and repaired there (SERVICE REQUEST carried a 5GS mobile identity of type 'no identity'). The multi-octet IE values the emulator fills through accessors (integrity protection maximum data rate, 5G-S-TMSI, S-NSSAI) have hand-written lemmas from TS 24.501 9.11.4.7 / 9.11.3.4 / 9.11.2.8; a fourth defect found and repaired there (SetAMFSetID cleared the AMF pointer). Accessor sweep: 553 generated lemmas state, for every accessor pair of nasType whose field lies inside one octet, is a uint16 spanning octets or is a whole-octet array, what the library's own layout annotation (Row, sBit, len) says — setter places exactly those bits and nothing else, getter reads them; that decides agreement of the code with its layout table, not of the table with the standard. NOT decided: slice-valued IE contents, the values chosen by the constructors for dummy fields (IMEISV digits, PTI), SECURITY PROTECTED 5GS NAS MESSAGE. Same assumed models of bytes.Buffer / encoding/binary as C08.",
   "DESIGN.md §I.2 C09")
 
 PENDING = {
